@@ -221,5 +221,24 @@ func ddp_string_equal [C12]
   modifies nothing
   // equal exactly when the byte sequences (hence the code point sequences) are equal
   ensures result <==> (str1.cap == str2.cap && (forall k int :: 0 <= k && k < str1.cap - 1 ==> byteAt(str1.str, k) == byteAt(str2.str, k)))
+
+// number of bytes of a Text without the terminator
+spec lenB(s *ddpstring) int := s.str.B == nil ? 0 : s.cap - 1
+
+// concatenation: the result's bytes are the bytes of str1 followed by the bytes of str2 (so its code points are those
+// of str1 followed by those of str2); str1 is consumed (its block is reused or released), str2 is untouched
+func ddp_string_string_verkettet [C12, C05]
+  requires wfStr(str1) && wfStr(str2) && ret != nil && ret != str1 && ret != str2 && str1 != str2
+  requires str1.str.B != nil ==> str1.str.B != str2.str.B
+  modifies ddprt.ddpstring, ddprt.Blk.$n, ddprt.Blk.$m
+  ensures wfStr(ret) && lenB(ret) == old(lenB(str1)) + old(lenB(str2))
+  ensures forall k int :: 0 <= k && k < old(lenB(str1)) ==> byteAt(ret.str, k) == old(byteAt(str1.str, k))
+  ensures forall k int :: 0 <= k && k < old(lenB(str2)) ==> byteAt(ret.str, old(lenB(str1)) + k) == old(byteAt(str2.str, k))
+  // ownership: str1 is left empty; its block lives on in the result or is released
+  ensures str1.str.B == nil && str1.cap == 0
+  ensures old(str1.str.B) != nil && ret.str.B != old(str1.str.B) ==> old(str1.str.B).$n == -1
+  // str2 is unchanged
+  ensures str2.str == old(str2.str) && str2.cap == old(str2.cap) && wfStr(str2)
+  ensures forall k int :: 0 <= k && k < str2.cap ==> byteAt(str2.str, k) == old(byteAt(str2.str, k))
 @*/
 #endif
